@@ -59,30 +59,36 @@ func swap_BANG(ctx context.Context, a ...MalType) (MalType, error) {
 		return nil, errors.New("swap! called with non-atom")
 	}
 	atm := a[0].(*Atom)
-	if simhook.Enabled {
-		simhook.Await("atom.swap.lock", atm, func() bool { return simTryLock(&atm.Mutex) })
-	}
-	atm.Mutex.Lock()
-	defer atm.Mutex.Unlock()
-	args := []MalType{atm.Val}
-	simhook.Yield("atom.swap.read", atm)
 	f := a[1]
-	args = append(args, a[2:]...)
-	res, e := Apply(ctx, f, args)
-	simhook.Yield("atom.swap.applied", atm)
-	if e != nil {
-		return nil, e
+	for {
+		// The update function runs without the atom's lock held, so that it may deref
+		// this atom or update other atoms; its result is installed only if no other
+		// update got in between, otherwise it is applied again to the new value (as
+		// Clojure's swap! does).
+		old, version := atm.load()
+		simhook.Yield("atom.swap.read", atm)
+		args := append([]MalType{old}, a[2:]...)
+		res, e := Apply(ctx, f, args)
+		simhook.Yield("atom.swap.applied", atm)
+		if e != nil {
+			return nil, e
+		}
+		if atm.compareAndSet(version, res) {
+			return res, nil
+		}
+		if ctx != nil && ctx.Err() != nil {
+			return nil, errors.New("timeout while evaluating expression")
+		}
 	}
-	atm.Set(res)
-	return res, nil
 }
 
 // Atoms
 type Atom struct {
-	Mutex  sync.RWMutex
-	Val    MalType
-	Meta   MalType
-	Cursor *Position
+	Mutex   sync.RWMutex
+	Val     MalType
+	Meta    MalType
+	Cursor  *Position
+	version uint64 // incremented by every Set
 }
 
 func (a *Atom) Type() string {
@@ -91,7 +97,32 @@ func (a *Atom) Type() string {
 
 func (a *Atom) Set(val MalType) MalType {
 	a.Val = val
+	a.version++
 	return a
+}
+
+// load returns the current value together with its version.
+func (a *Atom) load() (MalType, uint64) {
+	if simhook.Enabled {
+		simhook.Await("atom.swap.rlock", a, func() bool { return simTryRLock(&a.Mutex) })
+	}
+	a.Mutex.RLock()
+	defer a.Mutex.RUnlock()
+	return a.Val, a.version
+}
+
+// compareAndSet installs val if the atom still holds the given version.
+func (a *Atom) compareAndSet(version uint64, val MalType) bool {
+	if simhook.Enabled {
+		simhook.Await("atom.swap.lock", a, func() bool { return simTryLock(&a.Mutex) })
+	}
+	a.Mutex.Lock()
+	defer a.Mutex.Unlock()
+	if a.version != version {
+		return false
+	}
+	a.Set(val)
+	return true
 }
 
 func (a *Atom) Deref(_ context.Context) (MalType, error) {
